@@ -479,7 +479,7 @@ class all_dot_brackets:
         {"when": "after", "at": "orders = {region: 0 for region in component}", "label": "M0",
          "do": ["let M = 1", "let WT = fill(0, 0)", "let WW = snoc(empty('list[list[int]]'), fill(0, 0))"]},
         {"when": "after", "at": "available = [", "label": "WT0", "do": ["let WT = fill(len(component), 0 - 1)"]},
-        {"when": "after", "at": "available[orders[permutation[j]]] = False", "label": "WT",
+        {"when": "after", "at": "available[orders[permutation[j]]] =", "label": "WT",
          "do": ["let WT = upd(WT, orders[permutation[j]], j)"]},
         {"when": "before", "at": "order = next(", "label": "level-free",
          "do": ["assert M < len(available) and available[M]"]},
